@@ -43,7 +43,7 @@ REQUIRED_PROBES = ['n_%d' % k for k in range(2, 9)] + [
     'duplicate_signature_publication', 'partition_healed', 'with_refund_keys',
     'refund_after_timeout', 'refund_before_timeout', 'cascade_completed',
     'corrupt_adapter_rejected', 'corrupt_publication_rejected', 'view_corrupted_probe',
-    'same_seed_other_length', 'seedless_setup']
+    'same_seed_other_length', 'seedless_setup', 'partial_refund_keys']
 RTO = 400           # ms, retransmission timeout of the party stubs
 BASE = 20           # ms, base one-way latency
 HORIZON = 120_000   # ms of simulated time per run at most
@@ -60,9 +60,11 @@ def gen_plan(run_seed, idx, tier):
         chains.append({'seed': rng.bytes(rng.choice([0, 1, 16, 32, 32, 64])).hex(),
                        'n': n if c == 0 else rng.rng(2, 4),
                        'flags': rng.choice(['00', '00', '01', '03']), 'refund': refund and c == 0,
+                       'refund_hops': None if rng.chance(1, 2) else
+                       sorted(rng.sample(range(8), rng.rng(1, 4))),
                        'timeout': rng.choice([30, 60, 3600]),
                        'sigfields': [{'sigfield%d' % k: rng.bytes(rng.choice([4, 32])).hex()
-                                      for k in rng.sample([1, 2, 3, 4], rng.rng(1, 2))}
+                                      for k in rng.sample(range(1, 9), rng.rng(1, 2))}
                                      for _ in range(8)]})
     if len(chains) == 1 and rng.chance(1, 5):
         # the same seed is used again for a route of another length (a wallet
@@ -167,7 +169,14 @@ class Chain:
         self.rpks = [pubkey_of_seed(s) for s in self.rseeds]
         self.sf = [{k: bytes.fromhex(v) for k, v in spec['sigfields'][i].items()} for i in range(self.n)]
         seed = bytes.fromhex(spec['seed'])
-        refunds = {self.pks[i]: self.rpks[i] for i in range(self.n)} if spec['refund'] else None
+        self.rhops = set()
+        if spec['refund']:
+            hops = spec.get('refund_hops')
+            self.rhops = set(range(self.n)) if hops is None else {h for h in hops if h < self.n}
+            if self.rhops != set(range(self.n)):
+                run.probe('partial_refund_keys')
+        refunds = {self.pks[i]: self.rpks[i] for i in sorted(self.rhops)} if spec['refund'] else None
+        self.refunds_arg = refunds
         CLOCK.begin_call('P0')
         try:
             self.res = real('setup_amhl', T.setup_amhl, seed, self.pks[:self.n], self.flags,
@@ -283,6 +292,7 @@ class Sim:
         f = self.plan['net']['faults'].get(str(mi))
         delay = BASE + mix(self.plan['net']['jitter_seed'], mi) % 30
         self.run.sched.append(['send', msg[0], src, dst, (f or {}).get('kind', '')])
+        self.run.ev('send', self.now, mi, msg[0], src, dst, (f or {}).get('kind', ''))
         if msg[0] == 'adapter':
             self.seen_adapters[(msg[1], msg[2])] = msg[3]
         if self.cut(src, dst):
@@ -472,7 +482,7 @@ class Sim:
         if kind == 'refund':
             w = sig            # already a witness script
         else:
-            w = pb(item) + (T.compile_script('true') if ch.spec['refund'] else b'')
+            w = pb(item) + (T.compile_script('true') if hop in ch.rhops else b'')
         tstamp = CLOCK.local_s('V') + (msg[7] if kind == 'refund' and len(msg) > 7 and isinstance(msg[7], int) else 0)
         F.flags['ts_threshold'] = self.plan['knobs']['thr']
         CLOCK.begin_call('V')
@@ -519,6 +529,7 @@ class Sim:
                       detail={'n': ch.n, 'hop': hop, 'by': by, 'kind': kind})
         run.cell('claim', ch.n, ch.spec['refund'], kind,
                  'first' if hop == 0 else 'last' if hop == ch.n - 1 else 'mid', ok)
+        run.ev('ledger', self.now, c, hop, kind, str(by), ok)
         if ok:
             if hop in ch.claimed:
                 run.probe('duplicate_signature_publication')
@@ -609,9 +620,9 @@ class Sim:
                                                     ch.claimed[hop][2], 'republish', None))
         elif a == 'refund':
             ch = self.chains[0]
-            if not ch.spec['refund']:
+            if not ch.rhops:
                 return
-            hop = st['hop'] % ch.n
+            hop = sorted(ch.rhops)[st['hop'] % len(ch.rhops)]
             if hop in ch.claimed or hop in ch.refunded:
                 return
             run.probe('with_refund_keys')
@@ -735,7 +746,7 @@ def execute(plan, run):
                 run.probe('same_seed_other_length')
             if not ch.spec['seed']:
                 continue        # seedless: legitimately different every time
-            refunds = {ch.pks[i]: ch.rpks[i] for i in range(ch.n)} if ch.spec['refund'] else None
+            refunds = ch.refunds_arg
             again = real('setup_amhl', T.setup_amhl, bytes.fromhex(ch.spec['seed']), ch.pks[:ch.n],
                          ch.flags, refunds, ch.spec['timeout'])
             same = again['key'] == ch.key and all(
